@@ -67,6 +67,80 @@ def _by_position(ctx):
               key="SINK|sub_scrubber|bytext", where=common.loc(fi, bad[0]) if bad else None)
 
 
+def _deadspace_siblings(ctx):
+    """The Twp/Rge regexes are siblings: each has the same slots (twpnum, ns,
+    rgenum, ew) separated by a "deadspace" character class.  The class in
+    front of a given slot must be the same in every sibling that has the
+    slot; a sibling whose class is narrower rejects spellings (e.g. a dash
+    before E/W) that the others and the documented forms accept."""
+    import re._constants as C
+    names = ('twprge_regex', 'pp_twprge_no_nswe', 'pp_twprge_no_nsr', 'pp_twprge_no_ewt', 'pp_twprge_ocr_scrub')
+    slots = {}
+
+    def charset(items):
+        out = set()
+        for o, v in items:
+            if o is C.LITERAL:
+                out.add(chr(v))
+            elif o is C.RANGE:
+                out.update(chr(c) for c in range(v[0], min(v[1], v[0] + 200) + 1))
+            elif o is C.CATEGORY:
+                out.add(str(v))
+        return frozenset(out)
+
+    def walk(sub, rname):
+        prev = None
+        for op, av in sub:
+            if op is C.SUBPATTERN:
+                gname = ctx_groups.get(av[0])
+                if gname and prev is not None:
+                    slots.setdefault(gname, {})[rname] = prev
+                walk(av[3], rname)
+                prev = None
+            elif op in (C.MAX_REPEAT, C.MIN_REPEAT):
+                lo, hi, s2 = av
+                if len(s2) == 1 and s2[0][0] is C.IN and lo == 0:
+                    prev = charset(s2[0][1])
+                elif len(s2) == 1 and s2[0][0] is C.SUBPATTERN:
+                    # an optional group: (?P<ew>...)?
+                    gname = ctx_groups.get(s2[0][1][0])
+                    if gname and prev is not None:
+                        slots.setdefault(gname, {})[rname] = prev
+                    walk(s2[0][1][3], rname)
+                    prev = None
+                else:
+                    walk(s2, rname)
+                    prev = None
+            elif op is C.BRANCH:
+                for a in av[1]:
+                    walk(a, rname)
+                prev = None
+            else:
+                prev = None
+    for rname in names:
+        rv = ctx.fold.get('rgxlib.twprge', rname)
+        tree = rx.parse(rv.pattern, rv.flags)
+        ctx_groups = {v: k for k, v in tree.state.groupdict.items()}
+        walk(tree, rname)
+    n = 0
+    for g in ('rgenum', 'ew', 'ns'):
+        per = slots.get(g, {})
+        if len(per) < 3:
+            continue
+        from collections import Counter
+        major, cnt = Counter(per.values()).most_common(1)[0]
+        for rname, cs in sorted(per.items()):
+            n += 1
+            ctx.check(not (cs < major), 'SIB', f"{rname}: the deadspace in front of <{g}> is as wide as in its sibling regexes",
+                      f"{len(cs)} characters / categories",
+                      f"{rname} allows only {sorted(cs)} in front of <{g}> while {cnt} sibling regexes allow {sorted(major)}: "
+                      f"a spelling with {sorted(major - cs)} there (e.g. 'R97-E') is no longer recognised by this one, and the "
+                      f"written direction is overridden by the default",
+                      key=f"SIB|{rname}|deadspace|{g}", where='pytrs/parser/rgxlib/twprge.py')
+    if n == 0:
+        ctx.undecided('SIB', 'deadspace classes of the Twp/Rge sibling regexes agree', 'slots not recognised')
+
+
 def check(ctx):
     tw = 'rgxlib.twprge'
     g = lambda n: ctx.fold.get(tw, n)
@@ -113,6 +187,7 @@ def check(ctx):
     ctx.attempt(common.embedded_case_consistency, modules=('rgxlib.twprge',))
     ctx.attempt(_config_words)
     ctx.attempt(_by_position)
+    ctx.attempt(_deadspace_siblings)
 
 
 def _tables(ctx):
@@ -318,10 +393,17 @@ def _fixed_twprge(ctx):
                 bad = n
         if isinstance(n, ast.BinOp) and isinstance(n.op, ast.Sub) and 'set(' in norm(n):
             bad = n
+        # positional difference: processed[len(orig):] assumes the completed
+        # Twp/Rges come after all the complete ones
+        if isinstance(n, ast.Subscript) and isinstance(n.slice, ast.Slice) and n.slice.lower is not None \
+                and isinstance(n.slice.lower, ast.Call) and dotted(n.slice.lower.func) == 'len' \
+                and 'twprge' in norm(n.value).lower():
+            bad = n
     if bad is not None and good is None:
         ctx.violation('WARN', 'plss_preprocess: fixed Twp/Rges',
-                      f"`{norm(bad)[:120]}` is a set difference: a filled-in Twp/Rge that is also "
-                      f"written out elsewhere is not reported",
+                      f"`{norm(bad)[:120]}` is not a multiset difference of the Twp/Rges found after and before "
+                      f"preprocessing (set difference / positional slice): the fixed_twprge warning names the wrong Twp/Rge or "
+                      f"none when a completed Twp/Rge precedes or equals a fully written one",
                       key="WARN|plss_preprocess|setdiff", where=common.loc(fp, bad))
     elif good is not None:
         ctx.ok('WARN', 'plss_preprocess: fixed Twp/Rges', 'one occurrence removed per original Twp/Rge (multiset difference)')
@@ -360,6 +442,21 @@ def calltime_defaults(ctx, rule='GLOBALS'):
                                   f"parameter default `{txt}` is evaluated once at import: later "
                                   f"changes of MasterConfig are ignored on this route",
                                   key=f"{rule}|{fi.qualname}|{p}|import-time", where=fi.loc)
+    # no object captures the master default when it is created: an attribute
+    # bound from MasterConfig in __init__ is frozen for the object's lifetime
+    for fi in ctx.repo.funcs.values():
+        if fi.node.name != '__init__' or fi.module.name.startswith('pytrs.interface_tools'):
+            continue
+        for st in walk_local(fi.node):
+            if isinstance(st, ast.Assign) and any(isinstance(t_, ast.Attribute) and norm(t_.value) == 'self'
+                                                   and t_.attr in ('default_ns', 'default_ew') for t_ in st.targets) \
+                    and any(isinstance(x, ast.Attribute) and norm(x) in ('MasterConfig.default_ns', 'MasterConfig.default_ew',
+                                                                         'MC.default_ns', 'MC.default_ew')
+                            for x in ast.walk(st.value)):
+                ctx.violation(rule, f"{fi.qualname}: the object does not capture MasterConfig's default at creation",
+                              f"`{norm(st)}` copies the master default into the object when it is created: an object made "
+                              f"before MasterConfig is changed (or with wait_to_parse) keeps parsing with the old direction",
+                              key=f"{rule}|{fi.qualname}|captured-at-init", where=common.loc(fi, st))
     for spec in ('unpackers:unpack_twprge', 'plss_preprocess:plss_preprocess', 'TRS.construct_trs'):
         fi = ctx.repo.func(spec)
         for p in ('default_ns', 'default_ew'):
